@@ -134,6 +134,7 @@ def select(draw, ctx, depth, ctes, nitems=None, nojoin=False):
         items = []; seen = set()
         for i in range(n):
             e = draw(expr(names, draw(st.integers(0, 2)), unq_ok))
+            if n > 1 and draw(st.integers(0, 9)) == 0: e = Lit(draw(st.sampled_from(["1", "'x'", "NULL", "CURRENT_DATE"])))  # a constant select item: no lineage, but it holds a position
             alias = f"o{i+1}" if (not isinstance(e, Col) or draw(st.booleans())) else None
             nm = (alias or e.name).lower()
             if nm in seen or nm in {f"o{j+1}" for j in range(i + 1, n)}:  # output names pairwise distinct, also w.r.t. later aliases
